@@ -206,7 +206,7 @@ def _parse_output(res, out):
 
 def parse_error_trace(out):
     states = []
-    for m in re.finditer(r"^State (\d+): <([^>]*)>\n(.*?)(?=^State \d+:|^\d+ states generated|^Error:|\Z)", out, flags=re.M | re.S):
+    for m in re.finditer(r"^State (\d+): <([^\n]*)>[ \t]*\n(.*?)(?=^State \d+:|^\d+ states generated|^Error:|\Z)", out, flags=re.M | re.S):
         try:
             st = parse_state(m.group(3))
         except Exception as e:  # pragma: no cover
